@@ -3,7 +3,7 @@ import vlib, common
 RULE = ("adversarial answers derived from genuine ones on logs of 1..40 (quick) / ..150 events: Exists flipped, each version field set to neighbours/0/n/2^63/2^64-1, "
         "KeyDigest replaced (another event, never-added neighbour sharing 24..255 bits), every kind of single entry alteration/drop/oversized entry in both paths, cleared paths, "
         "each verified for the genuine digest, a never-added neighbour and another event, against authentic snapshots of the right and of other versions; "
-        "oracle: accepted => the claim is true in the log. distinct = (case,state,event,version); non-trivial = genuine base answer with non-empty history path")
+        "oracle: accepted => the claim is true in the log. distinct = (case,state,event,version); non-trivial = genuine base answer with non-empty history path clientv: the real client.HTTPClient (MembershipAutoVerify, MembershipDigest+MembershipVerify, IncrementalAutoVerify, Incremental+IncrementalVerify) over JSON against an authentic snapshot store and a server that is honest, answers for other versions/pairs, relabels them, presents the proof of a stored event for a never-added digest sharing its prefix (incl. a 64-byte audit entry), a proof of absence for a present event, tampered fields, or serves a forked log; logs of ~12, ~35 and >1040 events (two-digit heights on the wire); oracle: the published log.")
 
 
 def run(v, tier, seed, replay):
@@ -29,6 +29,7 @@ def run(v, tier, seed, replay):
                         dict(kind="correspondence", theorem="C02_digest_verify_sound is about Balloon.digest_verify; its correspondence with protocol.ToBalloonProof + MembershipProof.DigestVerify no longer checks", mismatches=mism, seed=seed, tier=tier), no_input=True)
     finally:
         s.cleanup()
+    common.client_entry_points(v, "C02", tier, seed, ('C02',))
     v.coverage["trusted_base"] = vlib.TRUSTED_COMMON + [
         "premise H_inj (hash injective on its structured inputs) and D_eqb_eq; satisfiable (Example C02_premises_hold on the free term algebra). It stands for SHA-256 collision resistance AND for audit-path entries being 32-byte strings: the verifier does not check entry lengths, the byte-level argument for that is in DESIGN.md",
         "modelled rather than verified: crypto/sha256, encoding/json is not involved (the wire struct is built directly), Go map semantics of the audit paths"]
